@@ -59,7 +59,7 @@ static uint64_t run_script(const Script& s, const ReuseableDataContainer64* shar
 
 static void judge(Ctx& ctx, const Case& c, bool from_replay) {
   ctx.begin(c);
-  const int T = (int)c.geti("T"), nops = (int)c.geti("nops"), mode = (int)c.geti("mode"); // 0 identical lock-step, 1 varied, 2 shared container
+  const int T = (int)c.geti("T"), nops = (int)c.geti("nops"), mode = (int)c.geti("mode"); // 0 identical lock-step, 1 varied, 2 shared container, 3 lock-step same family / different data
   Rng r((uint64_t)c.geti("rseed"), 99);
   GenLimits lim; lim.maxexp_bool = 24; lim.maxexp_other = 20;
   // scripts
@@ -74,6 +74,23 @@ static void judge(Ctx& ctx, const Case& c, bool from_replay) {
     }
   };
   if (mode == 0) { gen_script(scripts[0]); for (int t = 1; t < T; ++t) scripts[(size_t)t] = scripts[0]; }   // own copy of the same data
+  else if (mode == 3) {
+    // lock-step, same entry-point family at every step but different data and parameters in every thread: state that is
+    // shared between objects behind a cache key (memoised trigonometry, scratch buffers keyed by size...) is then hit by
+    // different keys at the same moment; half of the rounds are "offset storms" (delta callback + round joins/ends)
+    const bool storm = r.coin();
+    for (int k = 0; k < nops; ++k) {
+      int op = storm ? (int)OFFSET_OBJ : r.irange(0, NOPS - 1);
+      for (int t = 0; t < T; ++t) {
+        Case oc = gen_op(r, op, lim);
+        if (storm) { oc.seti("variant", 4 | (oc.geti("variant") & 3)); oc.seti("usecb", r.chance(0.8)); oc.seti("jt", r.chance(0.7) ? 2 : r.irange(0, 3)); oc.seti("et", r.chance(0.5) ? 4 : r.irange(0, 4));
+          oc.setd("delta", (double)r.irange(2, 60) * (r.coin() ? 1.0 : 1.37)); oc.setd("arc", r.coin() ? 0.0 : r.real(0.05, 2.0));
+          oc.p64["S"] = Paths64{ gen::star_shaped(r, 0, 0, (double)r.irange(60, 900), r.irange(3, 9), 0.4, 1.0, r.coin()) }; }
+        if (oc.getd("arc") > 0 && std::fabs(oc.getd("delta")) / oc.getd("arc") > 1e4) oc.setd("arc", std::fabs(oc.getd("delta")) / 1e4);
+        scripts[(size_t)t].ops.push_back(oc);
+      }
+    }
+  }
   else for (int t = 0; t < T; ++t) gen_script(scripts[(size_t)t]);
   // two identical shared containers: a FRESH one for the concurrent phase (so that any lazily initialised state of a
   // container is first touched by several threads at once) and another for the sequential reference
@@ -90,7 +107,7 @@ static void judge(Ctx& ctx, const Case& c, bool from_replay) {
   std::vector<Rng> yr; for (int t = 0; t < T; ++t) yr.emplace_back((uint64_t)c.geti("rseed"), 1000 + (uint64_t)t);
   for (int t = 0; t < T; ++t) th.emplace_back([&, t]() {
     start.wait();
-    got[(size_t)t] = run_script(scripts[(size_t)t], mode == 2 ? &shared_conc : nullptr, mode == 0 ? &step : nullptr, &yr[(size_t)t]);
+    got[(size_t)t] = run_script(scripts[(size_t)t], mode == 2 ? &shared_conc : nullptr, (mode == 0 || mode == 3) ? &step : nullptr, &yr[(size_t)t]);
   });
   for (auto& x : th) x.join();
   // sequential reference afterwards
@@ -108,7 +125,7 @@ static void judge(Ctx& ctx, const Case& c, bool from_replay) {
 
 void vf_case(Ctx& ctx, uint64_t i) {
   Case c; static const int Ts[] = { 2, 4, 8, 16 };
-  c.seti("T", Ts[i % 4]); c.seti("mode", (long long)((i / 4) % 3)); c.seti("nops", ctx.rng.irange(10, 24));
+  c.seti("T", Ts[i % 4]); c.seti("mode", (long long)((i / 4) % 4)); c.seti("nops", ctx.rng.irange(10, 24));
   c.seti("rseed", (long long)(ctx.rng.next() >> 2));
   judge(ctx, c, false);
 }
